@@ -105,14 +105,19 @@ impl ProcfsBase {
             ]
             .into_iter()
             // Return the first option that exists in proc_root.
-            .find(|base| {
-                match proc_root {
-                    Some(root) => syscalls::fstatat(root, base),
-                    None => {
-                        syscalls::fstatat(syscalls::AT_FDCWD, PathBuf::from("/proc").join(base))
-                    }
-                }
-                .is_ok()
+            .find(|base| match proc_root {
+                Some(root) => syscalls::fstatat(root, base).is_ok(),
+                // This case is used (through FrozenFd) by the syscall wrappers
+                // to describe their own failures, so it must not go through
+                // a wrapper itself -- if /proc/thread-self cannot be stat'd,
+                // the error of the failed fstatat would be described by
+                // stat-ing /proc/thread-self again, recursing without bound.
+                None => rustix_fs::statat(
+                    syscalls::AT_FDCWD,
+                    PathBuf::from("/proc").join(base),
+                    AtFlags::NO_AUTOMOUNT | AtFlags::SYMLINK_NOFOLLOW,
+                )
+                .is_ok(),
             })
             // If none of the candidates could be stat'd (because fstatat(2)
             // itself keeps failing), use the last-resort candidate and let
